@@ -35,6 +35,9 @@ c3_record_before_checking|gemmill/plugin/admin_op.go|	if !s.CheckMajor23(cmd) {\
 c4_remove_of_non_member_recorded|gemmill/plugin/admin_op.go|		if !(*s.validators).HasAddress(msgPubKey.Address()) {\n			return nil\n		}|
 c5_update_ignores_power|gemmill/plugin/admin_op.go|					val.VotingPower = vAttr.GetPower()\n					val.IsCA|					val.IsCA
 c6_angine_endblock_fresh_set|gemmill/angine.go|		NextValidatorSet:  nextVS,|		NextValidatorSet:  nextVS.Copy(),
+d1_same_state_entry_ends_the_loop|gemmill/plugin/admin_op.go|				if val.VotingPower != vAttr.GetPower() {|				if val.VotingPower == vAttr.GetPower() {\n					return nil\n				}\n				if val.VotingPower != vAttr.GetPower() {
+d2_unbound_request_needs_no_binding|gemmill/plugin/admin_op.go|if !bytes.Equal(app.From(), vAttr.Addr) {|if len(vAttr.Addr) != 0 && !bytes.Equal(app.From(), vAttr.Addr) {
+d3_last_validators_read_after_endblock|gemmill/state/execution.go|	s.SetBlockAndValidators(block.Header, blockPartsHeader, valSet, nextValSet)|	valSet = s.Validators.Copy()\n	s.SetBlockAndValidators(block.Header, blockPartsHeader, valSet, nextValSet)
 EOF
 }
 
